@@ -17,7 +17,7 @@ pub const FLOORS: &[&str] = &[
     "loc:abs", "label_offset_crosses_8000", "pc_offset_overflows_16_bits", "offset_beyond_i16_rejected",
     "inspect", "addr:0", "addr:orig-1", "addr:orig", "addr:x7FFF", "addr:x8000", "addr:xFDFF",
     "addr:xFE00", "addr:xFFFF", "origin_high", "origin_low", "predefined_breakpoint_outside_user_space",
-    "origin_zero", "origin_above_user_space",
+    "origin_zero", "origin_above_user_space", "wrong_case_label_rejected",
 ];
 
 const CMDS_PER_SESSION: u64 = 120;
@@ -60,7 +60,8 @@ fn program(rng: &mut Rng, orig: u16) -> (String, RefImage) {
     }
     // a small program with a few labels; it is never run to completion here
     let mut items = vec![Item::Orig(orig as i32)];
-    let names = ["first", "mid", "data", "last"];
+    // (label names that are words of the command language elsewhere - `pc`, `sp` - are plain labels)
+    let names = *rng.pick(&[["first", "mid", "data", "last"], ["pc", "sp", "Main", "psr"], ["PC", "count", "Count", "lr"], ["first", "Pc", "data", "SP"]]);
     let n = 4 + rng.below(12) as usize;
     for k in 0..n {
         let label = match k {
@@ -194,6 +195,30 @@ fn one_case(seed: u64, i: u64, n_sessions: u64, sweep_all: bool) -> CaseOut {
                 Loc::Pc(off)
             }
         };
+        if rng.chance(1, 14) {
+            // an existing label in another letter case: labels are case-sensitive, so this names
+            // nothing - an error, and nothing changes
+            let (name, _) = rng.pick(&labels).clone();
+            let flipped: String = name.chars().enumerate().map(|(k, c)| if (k + name.len()) % 2 == 0 { c.to_ascii_uppercase() } else { c.to_ascii_lowercase() }).collect();
+            let other: String = name.chars().map(|c| if c.is_ascii_lowercase() { c.to_ascii_uppercase() } else { c.to_ascii_lowercase() }).collect();
+            let wrong = if flipped != name && !labels.iter().any(|(n, _)| *n == flipped) { flipped } else { other };
+            if wrong != name && !labels.iter().any(|(n, _)| *n == wrong) {
+                let arg = match rng.below(3) {
+                    0 => wrong.clone(),
+                    1 => format!("{}+{}", wrong, rng.below(3)),
+                    _ => format!("{}-1", wrong),
+                };
+                classes.push("wrong_case_label_rejected".into());
+                // (the line parses; it is refused when the label is looked up: a command without effect)
+                cmds.push(Cmd::Inspect(match rng.below(4) {
+                    0 => format!("move {} x{:04x}", arg, rng.u16()),
+                    1 => format!("goto {}", arg),
+                    2 => format!("break add {}", arg),
+                    _ => format!("break remove {}", arg),
+                }));
+                continue;
+            }
+        }
         let cmd = match rng.below(11) {
             0 | 1 => {
                 classes.push("move_reg".into());
